@@ -64,25 +64,38 @@ fn hmac_input(rng: &mut impl RngCore, with_opt: bool) -> HmacGetSecretInput {
 
 /// build the message `msg` with the given optional members present; serialised with ciborium
 fn build(msg: &str, present: &[String], rng: &mut impl RngCore) -> Result<Vec<u8>, String> {
+    build_with(msg, present, (true, true, true), rng).map(|(b, _)| b)
+}
+
+/// (serialisation, Debug rendering of the value that was serialised)
+fn build_with(msg: &str, present: &[String], opts: (bool, bool, bool), rng: &mut impl RngCore) -> Result<(Vec<u8>, String), String> {
     let has = |m: &str| present.iter().any(|p| p == m);
+    let mut dbg = String::new();
+    macro_rules! ser {
+        ($v:expr, $out:expr $(,)?) => {{
+            let v = $v;
+            dbg = format!("{:?}", v);
+            ciborium::ser::into_writer(&v, $out)
+        }};
+    }
     let mut out = vec![];
     let r = match msg {
-        "mcReq" => ciborium::ser::into_writer(
-            &make_credential::Request {
+        "mcReq" => ser!(
+            make_credential::Request {
                 client_data_hash: rnd(rng, 32).into(),
                 rp: make_credential::PublicKeyCredentialRpEntity { id: "example.com".into(), name: Some("Example".into()) },
                 user: PublicKeyCredentialUserEntity { id: rnd(rng, 12).into(), name: "n".into(), display_name: "d".into() },
                 pub_key_cred_params: vec![PublicKeyCredentialParameters { ty: PublicKeyCredentialType::PublicKey, alg: coset::iana::Algorithm::ES256 }],
                 exclude_list: has("excludeList").then(|| desc(rng, 2)),
                 extensions: has("extensions").then(|| make_credential::ExtensionInputs { hmac_secret: Some(true), hmac_secret_mc: Some(hmac_input(rng, true)), prf: Some(prf_inputs(rng)) }),
-                options: make_credential::Options { rk: true, up: true, uv: true },
+                options: make_credential::Options { rk: opts.0, up: opts.1, uv: opts.2 },
                 pin_auth: has("pinAuth").then(|| rnd(rng, 16).into()),
                 pin_protocol: has("pinProtocol").then_some(1),
             },
             &mut out,
         ),
-        "mcResp" => ciborium::ser::into_writer(
-            &make_credential::Response {
+        "mcResp" => ser!(
+            make_credential::Response {
                 fmt: "none".into(),
                 auth_data: auth_data(rng, true),
                 att_stmt: Cbor::Map(vec![]),
@@ -94,20 +107,20 @@ fn build(msg: &str, present: &[String], rng: &mut impl RngCore) -> Result<Vec<u8
             },
             &mut out,
         ),
-        "gaReq" => ciborium::ser::into_writer(
-            &get_assertion::Request {
+        "gaReq" => ser!(
+            get_assertion::Request {
                 rp_id: "example.com".into(),
                 client_data_hash: rnd(rng, 32).into(),
                 allow_list: has("allowList").then(|| desc(rng, 3)),
                 extensions: has("extensions").then(|| get_assertion::ExtensionInputs { hmac_secret: Some(hmac_input(rng, false)), prf: Some(prf_inputs(rng)) }),
-                options: get_assertion::Options { rk: false, up: false, uv: true },
+                options: get_assertion::Options { rk: opts.0, up: opts.1, uv: opts.2 },
                 pin_auth: has("pinAuth").then(|| rnd(rng, 16).into()),
                 pin_protocol: has("pinProtocol").then_some(2),
             },
             &mut out,
         ),
-        "gaResp" => ciborium::ser::into_writer(
-            &get_assertion::Response {
+        "gaResp" => ser!(
+            get_assertion::Response {
                 credential: has("credential").then(|| desc(rng, 1).pop().unwrap()),
                 auth_data: auth_data(rng, false),
                 signature: rnd(rng, 70).into(),
@@ -121,8 +134,8 @@ fn build(msg: &str, present: &[String], rng: &mut impl RngCore) -> Result<Vec<u8
             },
             &mut out,
         ),
-        "info" => ciborium::ser::into_writer(
-            &get_info::Response {
+        "info" => ser!(
+            get_info::Response {
                 versions: vec![get_info::Version::FIDO_2_0, get_info::Version::U2F_V2],
                 extensions: has("extensions").then(|| vec![get_info::Extension::Prf, get_info::Extension::HmacSecret]),
                 aaguid: Aaguid::new_empty(),
@@ -133,9 +146,9 @@ fn build(msg: &str, present: &[String], rng: &mut impl RngCore) -> Result<Vec<u8
             },
             &mut out,
         ),
-        _ => ciborium::ser::into_writer(&hmac_input(rng, has("pinUvAuthProtocol")), &mut out),
+        _ => ser!(hmac_input(rng, has("pinUvAuthProtocol")), &mut out),
     };
-    r.map(|_| out).map_err(|e| e.to_string())
+    r.map(|_| (out, dbg)).map_err(|e| e.to_string())
 }
 
 pub fn build_pub(msg: &str, present: &[String], rng: &mut impl RngCore) -> Vec<u8> {
@@ -143,12 +156,12 @@ pub fn build_pub(msg: &str, present: &[String], rng: &mut impl RngCore) -> Vec<u
 }
 
 /// deserialise as the message type and serialise again
-fn reparse(msg: &str, bytes: &[u8]) -> Result<Vec<u8>, String> {
-    fn rt<T: DeserializeOwned + Serialize>(b: &[u8]) -> Result<Vec<u8>, String> {
+fn reparse(msg: &str, bytes: &[u8]) -> Result<(Vec<u8>, String), String> {
+    fn rt<T: DeserializeOwned + Serialize + std::fmt::Debug>(b: &[u8]) -> Result<(Vec<u8>, String), String> {
         let v: T = ciborium::de::from_reader(b).map_err(|e| e.to_string())?;
         let mut out = vec![];
         ciborium::ser::into_writer(&v, &mut out).map_err(|e| e.to_string())?;
-        Ok(out)
+        Ok((out, format!("{v:?}")))
     }
     match msg {
         "mcReq" => rt::<make_credential::Request>(bytes),
@@ -199,8 +212,14 @@ pub fn main(args: &Args) {
         let mut e = json!({"kind": "case", "msg": msg, "present": present, "variant": variant, "arg": arg, "ser": false, "keys": [],
                            "textkeys": 0, "nulls": false, "de": "none", "rt": false, "up": false, "rk": false, "uv": false,
                            "byte": 0, "back": 0, "class": "none", "werr": "none", "wcode": 0});
-        let built = util::catch(|| build(msg, &present, &mut rng));
-        let Ok(Ok(plain)) = built else {
+        // plain request cases carry the option values to use: "rk,up,uv" as three 0/1 digits
+        let opts = if variant == "plain" && arg.len() == 3 && arg.bytes().all(|b| b == b'0' || b == b'1') {
+            (&arg[0..1] == "1", &arg[1..2] == "1", &arg[2..3] == "1")
+        } else {
+            (true, true, true)
+        };
+        let built = util::catch(|| build_with(msg, &present, opts, &mut rng));
+        let Ok(Ok((plain, plain_dbg))) = built else {
             out.emit(e);
             continue;
         };
@@ -234,10 +253,11 @@ pub fn main(args: &Args) {
         match util::catch(|| reparse(msg, &fed_bytes)) {
             Err(_) => e["de"] = json!("crash"),
             Ok(Err(_)) => e["de"] = json!("err"),
-            Ok(Ok(again)) => {
+            Ok(Ok((again, again_dbg))) => {
                 e["de"] = json!("ok");
-                // equality of values is equality of their serialisations (the message types have no PartialEq)
-                e["rt"] = json!(if variant == "no-options" { true } else { again == plain });
+                // the message types have no PartialEq: two values are equal when their serialisations AND their Debug
+                // renderings agree (the latter catches a member that both directions drop consistently)
+                e["rt"] = json!(if variant == "no-options" { true } else { again == plain && again_dbg == plain_dbg });
                 if let Some((up, rk, uv)) = options_of(msg, &fed_bytes) {
                     e["up"] = json!(up);
                     e["rk"] = json!(rk);
